@@ -24,13 +24,13 @@ def r1(ctx, prog, cfgname):
         w = rl.precedes(f, lambda e: e == pad[0], push[0])
         ctx.check(R, w is None, f.where(push[0]), "[%s] padding check precedes the push" % cfgname, key="C17.R1:order2", witness=w)
         # nothing is stored before the double-free verdict
-        early = [a for a, l, rhs, op in f.stores() if cfg.reaches(cfg.pt(a), cfg.pt(dbl[0]))]
+        early = [a for a, l, rhs, op in f.stores() if f.nodes[f.strip(l)]["k"] != "DeclRefExpr" and cfg.reaches(cfg.pt(a), cfg.pt(dbl[0]))]
         ctx.check(R, not early, f.where(dbl[0]), "[%s] no store precedes the double-free check" % cfgname, key="C17.R1:no_store", witness=[f.loc(a) for a in early])
         hit = [q for p, q, e, pol in rl.edges_with_fact(f, rl.fact_call_true(f, "mi_check_is_double_free"))]
         ok = bool(hit)
         for q in hit:
             pts = cfg.reach([q])
-            ok = ok and cfg.pt(push[0]) not in pts and not any(cfg.pt(a) in pts for a, l, rhs, op in f.stores())
+            ok = ok and cfg.pt(push[0]) not in pts and not any(cfg.pt(a) in pts for a, l, rhs, op in f.stores() if f.nodes[f.strip(l)]["k"] != "DeclRefExpr")   # memory, not plain locals
         ctx.check(R, ok, f.where(), "[%s] a detected double free returns without touching the page" % cfgname, key="C17.R1:return")
     g = prog.fn("mi_check_is_double_free")
     body_trivial = all(g.cv(g.nodes[r].get("val", -1)) == 0 for r in g.all(kind="ReturnStmt"))
